@@ -120,6 +120,7 @@ ONone     == [o |-> "none"]
 OBool(b)  == [o |-> "bool", b |-> b]
 OBytes(c) == [o |-> "bytes", c |-> c]
 OEnts(s)  == [o |-> "ents", s |-> s]
+OBlind(v) == [o |-> "blind", v |-> v]    \* what a no_record block observed: nothing promises that it is followed
 OCaught   == [o |-> "caught"]
 
 -----------------------------------------------------------------------------
@@ -362,7 +363,7 @@ Instr(E, R, k, ins, scripts) ==
       [] ins.op = "norec" ->
             \* records::no_record: a None recorder for the body; the caller's is restored
             LET b == RunScript(E, RecOff, k, ins.body, 1, <<>>, scripts) IN
-            IF b.ok THEN Step(b.E, R, OVal(b.val), None, FALSE)
+            IF b.ok THEN Step(b.E, R, OBlind(b.val), None, FALSE)
             ELSE Step(b.E, R, OErr, b.err, b.panic)
       [] ins.op = "fail"  -> Step(E, R, OErr, EScript, FALSE)
       [] ins.op = "panic" -> Step(E, R, OErr, EPanic, TRUE)
@@ -375,6 +376,17 @@ RunScript(E, R, k, script, i, acc, scripts) ==
          ELSE RunScript(s.E, s.R, k, script, i + 1, Append(acc, s.obs), scripts)
 
 -----------------------------------------------------------------------------
+(* A value with what its no_record blocks observed removed (at every depth). *)
+RECURSIVE StripV(_)
+StripV(v) ==
+    IF "t" \in DOMAIN v /\ v.t = "node"
+    THEN [v EXCEPT !.obs = [i \in DOMAIN v.obs |->
+            LET o == v.obs[i] IN
+            IF o.o = "blind" THEN [o |-> "blind"]
+            ELSE IF o.o = "val" THEN [o EXCEPT !.v = StripV(o.v)]
+            ELSE o]]
+    ELSE v
+
 (* What loading k afresh from the current source and current cache gives.  *)
 (* (No reloader, nothing inserted: the value only.)                         *)
 Fresh(E, k, scripts) ==
